@@ -1,6 +1,7 @@
 package w9
 
 import (
+	"bytes"
 	"context"
 	"encoding/binary"
 	"fmt"
@@ -11,6 +12,7 @@ import (
 	"github.com/buildbarn/bb-remote-execution/pkg/filesystem/virtual"
 	"github.com/buildbarn/bb-remote-execution/pkg/verifsim/simsync"
 	"github.com/buildbarn/bb-storage/pkg/filesystem"
+	"github.com/buildbarn/bb-storage/pkg/filesystem/path"
 )
 
 // ---------------------------------------------------------------------------
@@ -64,23 +66,39 @@ func (g *handleRNG) Read(p []byte) (int, error) {
 	panic(simsync.HarnessError{Msg: "handle allocator unexpectedly called Read()"})
 }
 
-// fhOfLeaf returns the file handle of the i-th (0-based) file created. Draw 1
-// is the root directory.
-func fhOfLeaf(i int) []byte {
+// Draws of the handle allocator's generator: 1 = root directory, 2 = the
+// resolvable allocator of the blob files, 3... = pool-backed files in the
+// order of their creation.
+const firstPoolDraw = 3
+
+// fhOfLeaf returns the file handle that file#i must have. For a pool-backed
+// file that is the 8 byte handle made from the draw at its creation; for a
+// blob file the handle made of the resolvable allocator's prefix and the
+// identifiers of group and file. Beyond the files created so far: the handle
+// the next pool-backed files will get.
+func (w *world) fhOfLeaf(i int) []byte {
+	a := w.alloc
+	a.mu.Lock()
+	defer a.mu.Unlock()
+	if i < len(a.leaves) {
+		return a.leaves[i].fh
+	}
+	return poolFH(a.npool + i - len(a.leaves))
+}
+
+func poolFH(k int) []byte {
 	var b [8]byte
-	binary.LittleEndian.PutUint64(b[:], handleBase+2+uint64(i))
+	binary.LittleEndian.PutUint64(b[:], handleBase+firstPoolDraw+uint64(k))
 	return b[:]
 }
 
-func leafOfFH(fh []byte) (int, bool) {
-	if len(fh) != 8 {
-		return 0, false
-	}
-	v := binary.LittleEndian.Uint64(fh)
-	if v < handleBase+2 || v > handleBase+2+1000 {
-		return 0, false
-	}
-	return int(v - handleBase - 2), true
+// leafOfFH: which file does a handle designate, according to the model?
+func (w *world) leafOfFH(fh []byte) (int, bool) {
+	a := w.alloc
+	a.mu.Lock()
+	defer a.mu.Unlock()
+	i, ok := a.byFH[string(fh)]
+	return i, ok
 }
 
 // ---------------------------------------------------------------------------
@@ -174,8 +192,10 @@ var bitName = [2]string{"read", "write"}
 // this one, so every call made by the NFS programs passes through here.
 type countingLeaf struct {
 	virtual.LinkableLeaf
-	a  *countingAllocator
-	id int
+	a    *countingAllocator
+	id   int
+	fh   []byte    // the handle this file must have
+	blob *blobFile // nil for pool-backed files
 
 	// Protected by a.mu.
 	opens    [2]int
@@ -191,6 +211,8 @@ type countingAllocator struct {
 
 	mu     sync.Mutex
 	leaves []*countingLeaf
+	byFH   map[string]int
+	npool  int // pool-backed files created so far
 }
 
 func (a *countingAllocator) NewFile(holeSource pool.HoleSource, isExecutable bool, size uint64, shareAccess virtual.ShareMask) (virtual.LinkableLeaf, error) {
@@ -200,8 +222,10 @@ func (a *countingAllocator) NewFile(holeSource pool.HoleSource, isExecutable boo
 		return nil, err
 	}
 	a.mu.Lock()
-	l := &countingLeaf{LinkableLeaf: inner, a: a, id: len(a.leaves)}
+	l := &countingLeaf{LinkableLeaf: inner, a: a, id: len(a.leaves), fh: poolFH(a.npool)}
+	a.npool++
 	a.leaves = append(a.leaves, l)
+	a.byFH[string(l.fh)] = l.id
 	l.count(&l.opens, shareAccess)
 	a.mu.Unlock()
 	return l, nil
@@ -249,7 +273,7 @@ func (l *countingLeaf) checkOpenDuringIO(bit int) {
 	cnt := l.opens[bit] - l.closes[bit]
 	l.a.mu.Unlock()
 	if cnt < 1 {
-		l.a.w.violate("io-on-closed-file", fmt.Sprintf("file#%d (handle %x) is being accessed for %s while it is not open for that access (opened %d, closed %d)", l.id, fhOfLeaf(l.id), bitName[bit], l.opens[bit], l.closes[bit]))
+		l.a.w.violate("io-on-closed-file", fmt.Sprintf("file#%d (handle %x) is being accessed for %s while it is not open for that access (opened %d, closed %d)", l.id, l.fh, bitName[bit], l.opens[bit], l.closes[bit]))
 	}
 }
 
@@ -319,3 +343,179 @@ func (a *countingAllocator) snapshot() []leafSnap {
 type quietLogger struct{}
 
 func (quietLogger) Log(err error) {}
+
+// ---------------------------------------------------------------------------
+// Blob files: read-only files whose NFS file handles are resolvable, i.e. are
+// made of identifiers from which the file can be found again, allocated
+// through two nested resolvable handle allocators the way production code
+// nests them (instance name -> digest -> ...):
+//
+//	handleAllocator.New().AsResolvableAllocator(resolve)        level 1
+//	  .New(ByteSliceID(group)).AsResolvableAllocator(nil)        level 2, one per group, kept
+//	    .New(ByteSliceID(id)).AsLinkableLeaf(file)               every time the file is looked up
+// ---------------------------------------------------------------------------
+
+type blobFile struct {
+	group, id string
+	name      string // name in the root directory
+	content   []byte
+}
+
+var blobSpecs = []struct{ group, id string }{
+	{"blob", "a"}, {"blob", "b"},
+	{"g", "xy"}, {"g", "zz9"},
+	{"long-group-id", "q"}, {"long-group-id", "r"},
+	{"grp", "child-with-a-long-identifier"}, {"grp", "k"},
+}
+
+func (f *blobFile) VirtualGetAttributes(ctx context.Context, requested virtual.AttributesMask, attributes *virtual.Attributes) {
+	attributes.SetChangeID(0)
+	attributes.SetFileType(filesystem.FileTypeRegularFile)
+	attributes.SetHasNamedAttributes(false)
+	attributes.SetIsInNamedAttributeDirectory(false)
+	attributes.SetSizeBytes(uint64(len(f.content)))
+	attributes.SetPermissions(virtual.PermissionsRead)
+}
+
+func (f *blobFile) VirtualSetAttributes(ctx context.Context, in *virtual.Attributes, requested virtual.AttributesMask, out *virtual.Attributes) virtual.Status {
+	if _, ok := in.GetSizeBytes(); ok {
+		return virtual.StatusErrAccess
+	}
+	if _, ok := in.GetOwnerUserID(); ok {
+		return virtual.StatusErrPerm
+	}
+	if _, ok := in.GetOwnerGroupID(); ok {
+		return virtual.StatusErrPerm
+	}
+	f.VirtualGetAttributes(ctx, requested, out)
+	return virtual.StatusOK
+}
+
+func (f *blobFile) VirtualApply(data any) bool { return false }
+
+func (f *blobFile) VirtualOpenNamedAttributes(ctx context.Context, createDirectory bool, requested virtual.AttributesMask, attributes *virtual.Attributes) (virtual.Directory, virtual.Status) {
+	return nil, virtual.StatusErrAccess
+}
+
+func (f *blobFile) VirtualAllocate(ctx context.Context, off, size uint64) virtual.Status {
+	return virtual.StatusErrWrongType
+}
+
+func (f *blobFile) VirtualSeek(ctx context.Context, offset uint64, regionType filesystem.RegionType) (*uint64, virtual.Status) {
+	if offset >= uint64(len(f.content)) {
+		return nil, virtual.StatusErrNXIO
+	}
+	if regionType == filesystem.Data {
+		return &offset, virtual.StatusOK
+	}
+	end := uint64(len(f.content))
+	return &end, virtual.StatusOK
+}
+
+func (f *blobFile) VirtualOpenSelf(ctx context.Context, shareAccess virtual.ShareMask, options *virtual.OpenExistingOptions, requested virtual.AttributesMask, attributes *virtual.Attributes) virtual.Status {
+	if shareAccess&^virtual.ShareMaskRead != 0 || options.Truncate {
+		return virtual.StatusErrAccess
+	}
+	f.VirtualGetAttributes(ctx, requested, attributes)
+	return virtual.StatusOK
+}
+
+func (f *blobFile) VirtualRead(ctx context.Context, buf []byte, offset uint64) (int, bool, virtual.Status) {
+	buf, eof := virtual.BoundReadToFileSize(buf, offset, uint64(len(f.content)))
+	copy(buf, f.content[min(offset, uint64(len(f.content))):])
+	return len(buf), eof, virtual.StatusOK
+}
+
+func (f *blobFile) VirtualClose(shareAccess virtual.ShareMask) {}
+
+func (f *blobFile) VirtualWrite(ctx context.Context, buf []byte, offset uint64) (int, virtual.Status) {
+	return 0, virtual.StatusErrAccess
+}
+
+func (f *blobFile) Link() virtual.Status { return virtual.StatusOK }
+func (f *blobFile) Unlink()              {}
+
+// blobs builds the blob files and knows how to find them again.
+type blobs struct {
+	w      *world
+	level1 virtual.ResolvableHandleAllocator
+	level2 map[string]virtual.ResolvableHandleAllocator // by group
+	leaves map[string]*countingLeaf                     // by group + "/" + id
+}
+
+// blobFH: the handle a blob file must have.
+func blobFH(group, id string) []byte {
+	var b bytes.Buffer
+	var p [8]byte
+	binary.LittleEndian.PutUint64(p[:], handleBase+2)
+	b.Write(p[:])
+	virtual.ByteSliceID(group).WriteTo(&b)
+	virtual.ByteSliceID(id).WriteTo(&b)
+	return b.Bytes()
+}
+
+// lookup hands out the file in the form in which it goes into a directory
+// or is returned by the handle resolver: decorated with its file handle.
+func (bs *blobs) lookup(group, id string) (virtual.LinkableLeaf, bool) {
+	l, ok := bs.leaves[group+"/"+id]
+	if !ok {
+		return nil, false
+	}
+	return bs.level2[group].New(virtual.ByteSliceID(id)).AsLinkableLeaf(l), true
+}
+
+// resolve is the handle resolver of level 1: the rest of the handle holds the
+// identifiers of the group and of the file.
+func (bs *blobs) resolve(r io.ByteReader) (virtual.DirectoryChild, virtual.Status) {
+	readID := func() (string, bool) {
+		n, err := binary.ReadUvarint(r)
+		if err != nil || n > 64 {
+			return "", false
+		}
+		b := make([]byte, n)
+		for i := range b {
+			c, err := r.ReadByte()
+			if err != nil {
+				return "", false
+			}
+			b[i] = c
+		}
+		return string(b), true
+	}
+	group, ok1 := readID()
+	id, ok2 := readID()
+	if _, err := r.ReadByte(); !ok1 || !ok2 || err == nil {
+		return virtual.DirectoryChild{}, virtual.StatusErrBadHandle
+	}
+	bs.w.k.Probe("blob-handle-resolved-again")
+	leaf, ok := bs.lookup(group, id)
+	if !ok {
+		return virtual.DirectoryChild{}, virtual.StatusErrStale
+	}
+	return virtual.DirectoryChild{}.FromLeaf(leaf), virtual.StatusOK
+}
+
+// newBlobs creates the blob files (they become file#0...) and returns them as
+// the initial contents of the root directory.
+func newBlobs(w *world, handleAllocator virtual.StatefulHandleAllocator) (*blobs, map[path.Component]virtual.InitialChild) {
+	bs := &blobs{w: w, level2: map[string]virtual.ResolvableHandleAllocator{}, leaves: map[string]*countingLeaf{}}
+	bs.level1 = handleAllocator.New().AsResolvableAllocator(bs.resolve)
+	children := map[path.Component]virtual.InitialChild{}
+	a := w.alloc
+	for i, spec := range blobSpecs {
+		if _, ok := bs.level2[spec.group]; !ok {
+			bs.level2[spec.group] = bs.level1.New(virtual.ByteSliceID(spec.group)).AsResolvableAllocator(nil)
+		}
+		f := &blobFile{group: spec.group, id: spec.id, name: fmt.Sprintf("b%d", i), content: []byte(fmt.Sprintf("blob %s/%s: contents of file#%d", spec.group, spec.id, i))}
+		l := &countingLeaf{LinkableLeaf: f, a: a, id: len(a.leaves), fh: blobFH(spec.group, spec.id), blob: f}
+		a.leaves = append(a.leaves, l)
+		a.byFH[string(l.fh)] = l.id
+		bs.leaves[spec.group+"/"+spec.id] = l
+		w.blobNames = append(w.blobNames, f.name)
+	}
+	for _, spec := range blobSpecs {
+		leaf, _ := bs.lookup(spec.group, spec.id)
+		children[path.MustNewComponent(bs.leaves[spec.group+"/"+spec.id].blob.name)] = virtual.InitialChild{}.FromLeaf(leaf)
+	}
+	return bs, children
+}
